@@ -2,6 +2,7 @@
 simulated client thread (the active-object hosts add miros' own threads).  Produces a
 ChartRun: per op, what the handlers did (ground truth recorded inside handler bodies),
 what miros reports, and what the reference model predicts."""
+import copy
 import random
 
 from sim import kernel, seams, prims
@@ -87,7 +88,7 @@ class ChartRun(object):
   def __init__(self, sc, sim):
     self.sc = sc
     self.sim = sim
-    self.spec = Spec(sc['spec'])
+    self.spec = Spec(copy.deepcopy(sc['spec']))     # late registrations change the table of this run only
     self.host = sc['host']
     self.steps = []          # StepObs
     self.chart = None
@@ -105,6 +106,8 @@ class ChartRun(object):
     self.dispatch_buf = []
     self.started = False
     self.created = []        # uids of events created since the last observation
+    self.vars = {v: False for v in sc['spec'].get('vars', [])}
+    self.rev = {}            # id(handler) -> state name
 
   def ref_state_at(self, i):
     for j in range(min(i, len(self.steps)) - 1, -1, -1):
@@ -135,6 +138,23 @@ class ChartRun(object):
     self.fx_fired[f['id']] = n + 1
     op = f['op']
     uid = 'fx%d.%d' % (f['id'], n)
+    if op == 'setvar':
+      self.vars[f['var']] = f['value']
+      return
+    if op == 'query':
+      # a handler that looks at the chart while it handles an event
+      try:
+        if f['q'] == 'is_in':
+          chart.is_in(chart.top if f['arg'] == 'top' else self.build.h[f['arg']])
+        elif f['q'] == 'child':
+          chart.child_state(chart.top if f['arg'] == 'top' else self.build.h[f['arg']])
+        elif hasattr(chart, 'current_state'):
+          chart.current_state()
+      except AssertionError:
+        pass     # child_state of a state that does not enclose the current one
+      return
+    if not hasattr(chart, 'post_fifo'):
+      return
     self.rec('fx', op, f.get('sig') or f.get('text'), uid)
     if op == 'post_fifo':
       chart.post_fifo(self.new_event(f['sig'], uid))
@@ -173,7 +193,7 @@ class ChartRun(object):
       raise ValueError(host)
     self.chart = c
     b = sc['build']
-    fx = self.effects if host in ('queued', 'ao', 'factory') else None
+    fx = self.effects
     if b == 'closure':
       self.build = chartgen.build_closure(self.spec, self.rec, spied=False, effects=fx, malform=sc.get('malform'))
     elif b == 'closure-spied':
@@ -188,6 +208,12 @@ class ChartRun(object):
       self.build = chartgen.build_to_code(self.spec, self.rec, c, base, effects=fx)
     else:
       raise ValueError(b)
+    self.build.vars = self.vars
+    for n_, h_ in self.build.h.items():
+      self.rev[id(h_)] = n_
+      w_ = getattr(h_, '__wrapped__', None)
+      if w_ is not None:
+        self.rev[id(w_)] = n_
     if host in ('queued', 'ao', 'factory'):
       if sc.get('live_spy'):
         c.live_spy = True
@@ -248,7 +274,8 @@ class ChartRun(object):
       return
     try:
       fun = c.state.fun
-      ob.state = getattr(fun, '__name__', None)
+      # by identity: distinct state functions may share a __name__
+      ob.state = self.rev.get(id(fun)) or getattr(fun, '__name__', None)
     except AttributeError:
       ob.state = None
     ob.state_name = getattr(c, 'state_name', None)
@@ -380,7 +407,23 @@ class ChartRun(object):
       elif k == 'child':
         tgt = c.top if op[1] == 'top' else build.h[op[1]]
         pred = {'kind': 'child', 'ret': self.ref.child_state(op[1])}
-        ob = self.do(op, lambda: getattr(c.child_state(tgt), '__name__', None))
+
+        def f():
+          r = c.child_state(tgt)
+          return self.rev.get(id(r)) or getattr(r, '__name__', None)
+        ob = self.do(op, f)
+      elif k == 'register':
+        # event handling added (or replaced) after the chart was built and has been running
+        _, sname, sig, reaction = op
+        self.spec.states[sname]['react'][sig] = copy.deepcopy(reaction)
+
+        def f():
+          if build.kind in ('template', 'factory'):
+            ev = seams.mods['event']
+            cb = build.make_cb(self.spec.states[sname], sig)
+            build.cbs[(sname, sig)] = cb
+            c.register_signal_callback(build.h[sname], getattr(ev.signals, sig), cb)
+        ob = self.do(op, f)
       elif k == 'read':
         def f():
           out = {}
